@@ -134,19 +134,19 @@ CHECKS = {
              "prefix; (ID) Transaction / Block.stream_deserialize cache sha256d of exactly the consumed bytes (of the "
              "header's bytes for a block), so with RT2 the cached id is sha256d of the canonical encoding, and the four "
              "hash() functions return sha256d(serialize()) / the cached id under that invariant; (RT1) encode-then-decode for "
-             "the loop-free, VLQ-free classes (OutputReference, PowEvidence, the public key, the three signature kinds, "
-             "Output, Input with a real or a placeholder signature): the REAL decoder body is executed on prefix + enc(x) + "
+             "the loop-free classes (OutputReference, PowEvidence, the public key, the three signature kinds, Output, Input "
+             "with each signature kind, BlockSummary, BlockHeader): the REAL decoder body is executed on prefix + enc(x) + "
              "rest for an arbitrary value x the encoder accepts and returns x with the cursor exactly behind enc(x), without "
-             "raising. Bounded (not proof): the "
+             "raising (for the two classes containing a height, relative to the VLQ pair's trusted read-back clause). "
+             "Bounded (not proof): the "
              "VLQ arithmetic (ranges, all 7-bit boundaries, all strings up to 2 bytes and structured longer ones), "
              "encode-then-decode equality for all consensus and wire-message classes on generated values, edited encodings, "
              "and ids of objects read back from a fresh sqlite store.",
         note="Assumed: the two VLQ functions are summarised by vlq(i) = the bytes the encoder writes (their arithmetic is "
              "only checked by the bounded part); struct.pack/unpack and int.to_bytes/from_bytes are inverse on their ranges "
              "(A-STRUCT); BytesIO is a byte sequence with a cursor (A-IO); sha256d is a function (A-HASH); serialize() "
-             "returns what stream_serialize writes to a fresh stream. Encode-then-decode of the classes containing a VLQ or a "
-             "list (BlockSummary, BlockHeader, Transaction, Block; Input with reward data) and the wire messages are NOT "
-             "proved, only exercised.",
+             "returns what stream_serialize writes to a fresh stream. Encode-then-decode of the two classes containing a list "
+             "(Transaction, Block) and of the wire messages is NOT proved, only exercised.",
         technique=PROOF_TECH + "; encoder against a spec function defined by the code itself, decoder post-condition, loop "
                   "invariants for the list codec; bounded companion for VLQ / RT1 / messages / store"),
     'C17': dict(
